@@ -8,7 +8,7 @@ sel="$*"
 : > /tmp/seed-results.tsv
 while IFS=$'\t' read id demo dest args checks; do
   [ -n "$sel" ] && ! echo " $sel " | grep -q " $id " && continue
-  git -C /repo apply seeded/$id/patch.diff || { echo "$id: patch does not apply"; continue; }
+  git -C /repo apply /verif/seeded/$id/patch.diff || { echo "$id: patch does not apply"; continue; }
   for prop in $checks; do
     out=$(./check $prop quick 2>&1); rc=$?
     n=$(echo "$out" | grep -c '^VIOLATION')
